@@ -53,7 +53,8 @@ type c03task struct {
 	name     string
 	parked   chan string // outcome delivered by the adversary
 	inflight bool
-	lostRun  int // consecutive LOST outcomes delivered
+	handed   bool // was handed to the executor at least once
+	lostRun  int  // consecutive LOST outcomes delivered
 	timeline []c03ev
 }
 
@@ -75,6 +76,14 @@ type c03exec struct {
 	resub   int
 	lastRet map[*c03task]int64
 	start   int64
+	elog    []string // logical-time event log (kept for witnesses)
+	active  int64    // Run calls in progress
+}
+
+func (x *c03exec) logf(format string, args ...interface{}) {
+	if len(x.elog) < 400 {
+		x.elog = append(x.elog, fmt.Sprintf("%d:", x.clock)+fmt.Sprintf(format, args...))
+	}
 }
 
 func (x *c03exec) Name() string                              { return "verif-adversary" }
@@ -112,6 +121,7 @@ func (x *c03exec) setState(ct *c03task, s exec.TaskState, err error) {
 	// record before applying: the change is visible to the evaluator no earlier than its record
 	x.mu.Lock()
 	ct.timeline = append(ct.timeline, c03ev{x.tick(), s})
+	x.logf("%s=%s", ct.name, s)
 	x.mu.Unlock()
 	if s == exec.TaskErr {
 		ct.t.Error(err)
@@ -122,6 +132,8 @@ func (x *c03exec) setState(ct *c03task, s exec.TaskState, err error) {
 
 // Run is the hand-off from the evaluator.
 func (x *c03exec) Run(t *exec.Task) {
+	atomic.AddInt64(&x.active, 1)
+	defer atomic.AddInt64(&x.active, -1)
 	x.mu.Lock()
 	ct := x.tasks[t]
 	x.tick()
@@ -132,6 +144,7 @@ func (x *c03exec) Run(t *exec.Task) {
 		return
 	}
 	x.handoff++
+	x.logf("handoff(%s)", ct.name)
 	if ct.inflight {
 		x.violate("task-handed-out-twice-at-once", fmt.Sprintf("task %s was handed to the executor while an earlier hand-off had not completed", ct.name))
 	}
@@ -154,11 +167,12 @@ func (x *c03exec) Run(t *exec.Task) {
 				if len(dt.timeline) > 0 {
 					last = dt.timeline[len(dt.timeline)-1].state.String()
 				}
-				x.violate("handoff-with-unfinished-dependency dep="+last, fmt.Sprintf("task %s was handed to the executor although its dependency %s is %s", ct.name, dt.name, last))
+				x.violate("handoff-with-unfinished-dependency dep="+last, fmt.Sprintf("task %s was handed to the executor although its dependency %s is %s; events: %v", ct.name, dt.name, last, x.elog))
 			}
 		}
 	}
 	ct.inflight = true
+	ct.handed = true
 	x.parked[ct] = true
 	x.mu.Unlock()
 	// the executor contract: WAITING -> RUNNING -> final
@@ -284,6 +298,7 @@ func runC03case(t *vf.T, c c03case) {
 			err := exec.Eval(ctx, x, rootsOf(stages, rs), nil)
 			x.mu.Lock()
 			results[i].err, results[i].done, results[i].at = err, true, x.tick()
+			x.logf("eval%d-returned(%v)", i, err != nil)
 			x.mu.Unlock()
 			atomic.AddInt64(&x.events, 1)
 		}()
@@ -397,6 +412,23 @@ func runC03case(t *vf.T, c c03case) {
 	if !stalled {
 		wg.Wait()
 	}
+	// release whatever is still parked (an evaluation that returned early leaves hand-offs behind)
+	x.mu.Lock()
+	ran := map[*exec.Task]bool{}
+	for tk, ct := range x.tasks {
+		ran[tk] = ct.handed
+	}
+	for ct := range x.parked {
+		delete(x.parked, ct)
+		ct.parked <- "ok"
+	}
+	handoffs, resubs := x.handoff, x.resub
+	x.mu.Unlock()
+	// let the released hand-offs finish so that nothing writes the harness state while the verdicts
+	// below read it
+	for i := 0; i < 20000 && atomic.LoadInt64(&x.active) > 0; i++ {
+		time.Sleep(50 * time.Microsecond)
+	}
 	sigs := map[string]bool{}
 	for i, w := range x.viol {
 		if !sigs[x.viosig[i]] {
@@ -460,21 +492,21 @@ func runC03case(t *vf.T, c c03case) {
 	}
 	for _, ts := range stages {
 		for _, ct := range ts {
-			if _, ran := x.lastRet[ct]; ran && !needed[ct.t] {
+			if ran[ct.t] && !needed[ct.t] {
 				t.Violate("ran-unneeded-task", fmt.Sprintf("task %s was run although no root depends on it | %s", ct.name, c03describe(c)))
 				return
 			}
 		}
 	}
-	t.Count("handoffs", int64(x.handoff))
-	t.Count("resubmissions", int64(x.resub))
+	t.Count("handoffs", int64(handoffs))
+	t.Count("resubmissions", int64(resubs))
 	t.Count("histories", 1)
 	if len(rootSets) == 2 {
 		t.Count("two_evaluator_histories", 1)
 	}
 	t.Seen("dag_shapes", c03shape(c))
 	t.Max("max_script_depth", int64(step))
-	if x.handoff > 0 && (nonOK || nonInit) {
+	if handoffs > 0 && (nonOK || nonInit) {
 		t.Nontrivial("")
 	}
 }
